@@ -161,6 +161,10 @@ type Contract struct {
 	CallAsserts map[string][]*Clause // obligations stated at a call site, over the caller's variables
 	PostAssumes map[string][]*Clause // assumptions in force right after a call returns
 	CallAssumes map[string][]*Clause // assumptions stated at a call site (listed in the evidence)
+	Defs     []*Clause // definitional axioms of uninterpreted spec functions (primitive recursion over the entry memory), function-scoped
+	AssumeCalls map[string]string // callee -> reason: its preconditions are not checked at calls from this function (listed as assumptions)
+	GhostParams []string // ghost parameters: universally quantified in the callee's proof, supplied by callers with 'callghost'
+	CallGhosts map[string]map[string]*Clause // callee -> ghost parameter -> expression over the caller's variables at the call
 	Ghosts   []*SpecMacro // ghost results: name := expression over the function's variables at its returns
 }
 
@@ -425,9 +429,10 @@ func (cs *ContractSet) parseClause(body, pos, pkg string, cur **Contract) error 
 					isPkg = true
 				}
 			}
-			if !isPkg {
+			if !isPkg && strings.Count(c.Target, ".") < 2 {
 				c.Key = pkg + "." + c.Target
 			}
+			// "pkg.Iface.Method": an interface of another package (e.g. io.Reader.Read), key as written
 		}
 		if _, dup := cs.Funcs[c.Key]; dup {
 			return fmt.Errorf("duplicate contract for %s", c.Key)
@@ -497,6 +502,46 @@ func (cs *ContractSet) parseClause(body, pos, pkg string, cur **Contract) error 
 		}
 		name := strings.TrimSpace(rest[:j])
 		c.PostAssumes[name] = append(c.PostAssumes[name], &Clause{Kind: "postassume", E: e, Text: strings.TrimSpace(rest[j+1:]), Pos: pos})
+	case "define":
+		// define <expr>: a defining equation of an uninterpreted spec function, in force in this function's proof only
+		e, err := parseExpr(rest, pos)
+		if err != nil {
+			return err
+		}
+		c.Defs = append(c.Defs, &Clause{Kind: "define", E: e, Text: rest, Pos: pos})
+	case "assumecalls":
+		// assumecalls f g h: reason   -- preconditions of these callees are assumed, not proved, at calls from this function
+		j := strings.Index(rest, ":")
+		if j < 0 {
+			return fmt.Errorf("assumecalls needs ': reason'")
+		}
+		if c.AssumeCalls == nil {
+			c.AssumeCalls = map[string]string{}
+		}
+		for _, n := range strings.Fields(rest[:j]) {
+			c.AssumeCalls[n] = strings.TrimSpace(rest[j+1:])
+		}
+	case "ghostparam":
+		c.GhostParams = append(c.GhostParams, strings.Fields(rest)...)
+	case "callghost":
+		// callghost <callee>: name := expr   -- value of the callee's ghost parameter at calls from this function
+		j := strings.Index(rest, ":")
+		k := strings.Index(rest, ":=")
+		if j < 0 || k < 0 || k <= j {
+			return fmt.Errorf("callghost needs '<callee>: name := expr'")
+		}
+		e, err := parseExpr(strings.TrimSpace(rest[k+2:]), pos)
+		if err != nil {
+			return err
+		}
+		if c.CallGhosts == nil {
+			c.CallGhosts = map[string]map[string]*Clause{}
+		}
+		name := strings.TrimSpace(rest[:j])
+		if c.CallGhosts[name] == nil {
+			c.CallGhosts[name] = map[string]*Clause{}
+		}
+		c.CallGhosts[name][strings.TrimSpace(rest[j+1:k])] = &Clause{Kind: "callghost", E: e, Text: strings.TrimSpace(rest[j+1:]), Pos: pos}
 	case "callassume":
 		// callassume <callee>: expr   -- an assumption (not proved) in force at calls to <callee>
 		j := strings.Index(rest, ":")
